@@ -70,6 +70,12 @@ def Link.run (l : Link) (transform : V3 → V3) : List V3 → Link
   | [] => l
   | p :: ps => Link.run (Link.update { l with leader := p } transform) transform ps
 
+/-- `GridBase.update(index, position)`: the leader point is set, then EVERY link of that junction is given the new
+    leader, updated, and its follower is written to the follower's grid point (links: follower index and the link's
+    `transform`) -/
+def gridUpdate (links : List (Nat × (V3 → V3))) (li : Nat) (p : V3) (pts : List V3) : List V3 :=
+  links.foldl (fun acc l => acc.set l.1 (l.2 p)) (pts.set li p)
+
 /-- radius vector of `p` about the axis `(o, a)`, times `|a|²` (no division): `|a|²(p − o) − ((p − o)·a) a` -/
 def radial (a o p : V3) : V3 := V3.smul (V3.dot a a) (p - o) - V3.smul (V3.dot (p - o) a) a
 
